@@ -1,268 +1,8 @@
-//! Runtime properties decided by Engine A (see /verif/DESIGN.md §4 and §7).
-mod c08;
-mod c12;
-mod c13_timers;
-use serde::{Deserialize, Serialize};
-use sim::dsl::Universe;
-use sim::gen::{universe, GenCfg};
-use sim::shell::{cross_comparable, run_case, run_cross, CaseCfg, CaseInfo, HostKind};
-use vkit::{Mode, Outcome, Report, Stats, Tier};
-
-#[derive(Debug, Clone, Serialize, Deserialize)]
-struct Case {
-    host: HostKind,
-    universe: Universe,
-    /// C05: instead of judging one host against the reference, run the universe in lock step on
-    /// all hosts and compare their observations (no reference involved)
-    #[serde(default)]
-    cross: bool,
-}
-
-struct Spec {
-    prop: &'static str,
-    hosts: &'static [HostKind],
-    gen: GenCfg,
-    rule: &'static str,
-    nontrivial: fn(&Universe, &CaseInfo) -> bool,
-    quick: u32,
-    thorough: u32,
-}
-
-fn uses(u: &Universe) -> std::collections::BTreeSet<&'static str> {
-    let mut s = Default::default();
-    u.programs.iter().for_each(|p| p.uses(&mut s));
-    s
-}
-
-fn spec(prop: &str) -> Option<Spec> {
-    use HostKind::*;
-    Some(match prop {
-        "C01" => Spec {
-            prop: "C01",
-            hosts: &[Core, Core, Legacy, BridgeBincode],
-            gen: GenCfg::standard(),
-            rule: "universes (1-2 programs, combinator depth <= 3, optional event->program link) x schedules (<= 30 shell actions: resolve, drop, late resolve, abort, start, no-op) on Core / legacy / bridge hosts; every call is judged by the trace invariants and by replaying its witness on the reference runtime; non-trivial = some call returned >= 2 effects, or an applied event started a follow-up program; distinct = distinct (host, universe)",
-            nontrivial: |_, i| i.max_effects_in_call >= 2 || i.follow_ups > 0,
-            quick: 3_000,
-            thorough: 30_000,
-        },
-        "C02" => Spec {
-            prop: "C02",
-            hosts: &[Direct, Core, Legacy, BridgeBincode, BridgeJson],
-            gen: GenCfg { again_weight: 6, garbage_weight: 2, ..GenCfg::standard() },
-            rule: "programs with several one-shot, notification and stream requests outstanding at once (equal operations included: requests are told apart only by their position in the program); schedules interleave resolutions, repeated resolutions of answered one-shots, resolutions of notifications and of ended streams; every resolution result (accepted / rejected) and the task that received each value are compared with the reference on the typed and on both serialized paths; non-trivial = >= 2 requests outstanding at once and >= 1 repeated or late resolution; distinct = distinct (host, universe)",
-            nontrivial: |_, i| i.max_outstanding >= 2 && i.late_resolves >= 1,
-            quick: 3_000,
-            thorough: 30_000,
-        },
-        "C03" => Spec {
-            prop: "C03",
-            hosts: &[Core, Core, Legacy, BridgeBincode],
-            gen: GenCfg::standard(),
-            rule: "programs whose tasks emit bursts of events between requests, events that start follow-up programs, every resolution order, on Core (command and legacy API) and through the bridge; update carries a re-entrancy flag and appends every event it applies to a log in the model; per call: the log read through view equals the events applied according to the reference, every applied event was the oldest pending one of its emitter, nothing emitted is left unapplied; non-trivial = some call applied >= 2 events, or an applied event started a follow-up program; distinct = distinct (host, universe)",
-            nontrivial: |_, i| i.max_events_in_call >= 2 || i.follow_ups > 0,
-            quick: 3_000,
-            thorough: 30_000,
-        },
-        "C13" => Spec {
-            prop: "C13",
-            hosts: &[Direct, Core, Core, Legacy, BridgeBincode, BridgeJson],
-            gen: GenCfg { max_acts: 260, start_weight: 6, scale: false, garbage_weight: 1, ..GenCfg::standard() },
-            rule: "long cyclic histories (up to 260 shell actions: programs started again and again, resolutions, drops, aborts, late resolutions) on direct / Core / legacy / bridge hosts; after every call: no finished task future is still held (drop counters on every task root future the generated program creates), the core's executor holds exactly as many tasks as there are unfinished commands returned by update, the bridge registry holds no entry for a request that can no longer be resolved (undecodable answers included); after dropping the host no task future exists; plus, on one thread, histories of up to 120 (thorough 600) timer cycles through both time APIs (fired / cleared and answered / cleared then fired / fired then cleared / handle dropped / cleared in the starting update), after each of which the executor must be empty and the legacy API's process-wide set of cleared ids as small as before; non-trivial = >= 100 actions in which the set of outstanding requests returned to empty >= 10 times; distinct = distinct (host, universe)",
-            nontrivial: |_, i| i.actions >= 100 && i.returned_to_empty >= 10,
-            quick: 600,
-            thorough: 8_000,
-        },
-        "C04" => Spec {
-            prop: "C04",
-            hosts: &[Direct, Direct, Stream],
-            gen: GenCfg { abortable: false, ..GenCfg::standard() },
-            rule: "command expressions over done/event/notify/request/stream/builder chains/then/and/all/collect/map_event/map_effect/spawn/async tasks, depth <= 3, every resolve/drop order, inspected directly after every shell action or polled as a stream by a harness executor that polls only after a wake; non-trivial = depth >= 2 with >= 2 different combinators and a builder chain or stream; distinct = distinct universe",
-            nontrivial: |u, _| {
-                let s = uses(u);
-                u.programs.iter().any(|p| p.depth() >= 2) && ["then", "and", "all", "map_event", "map_effect"].iter().filter(|k| s.contains(*k)).count() >= 2 && (s.contains("chain") || s.contains("stream"))
-            },
-            quick: 6_000,
-            thorough: 40_000,
-        },
-        "C05" => Spec {
-            prop: "C05",
-            hosts: &[Direct, Stream, Core, Legacy, BridgeBincode, BridgeJson],
-            gen: GenCfg { depth: 4, wrap: true, ..GenCfg::standard() },
-            rule: "programs nested to depth <= 4 and then wrapped 1-6 more times (all([p]), done.then(p), p.then(done), p.and(done), map_event, map_effect, spawn-on-done), run on every host (direct inspection, manual stream polling by a harness executor that polls a command only after its waker was used, Core with the command API, Core with the legacy API, bincode bridge, JSON bridge) under every resolve / drop order; on each host every call is judged against the same reference semantics: the effects and events of the call, and in particular no task left runnable when the call returns (a wake-up lost between layers); a quarter of the cases use no reference at all: the universe (without cancellation and follow-up programs) runs in lock step on {direct, stream-polled, Core}, on {Core, bincode bridge, JSON bridge} and, if expressible, on {Core command API, Core legacy API}, and after every shell action the hosts must have returned the same effects (paths, kinds, map_effect marks), the same resolution result and applied the same events; non-trivial = total nesting depth >= 5 (>= 4 for lock-step cases) and a resolution or drop that happened while >= 2 requests were outstanding; distinct = distinct (host, universe, mode)",
-            nontrivial: |u, i| u.programs.iter().any(|p| p.depth() >= 5) && i.max_outstanding >= 2,
-            quick: 3_000,
-            thorough: 30_000,
-        },
-        "C06" => Spec {
-            prop: "C06",
-            hosts: &[Direct, Core],
-            gen: GenCfg { abort_weight: 3, behind_then: 12, ..GenCfg::standard() },
-            rule: "programs with abortable commands, task aborts and exported join handles; schedules inject aborts and drops at generated points and keep resolving afterwards; non-trivial = a cancellation (abort or drop) happened while >= 1 other request was outstanding and a resolution followed; distinct = distinct (host, universe)",
-            nontrivial: |_, i| (i.aborts + i.drops) >= 1 && i.max_outstanding >= 2,
-            quick: 6_000,
-            thorough: 40_000,
-        },
-        "C07" => Spec {
-            prop: "C07",
-            hosts: &[Direct],
-            // mixed fates are the point: as many drops as resolutions
-            gen: GenCfg { drop_weight: 8, ..GenCfg::standard() },
-            rule: "programs mixing requests, streams, joins, selects, join handles, self-waking futures; schedules resolve some requests and drop others; is_done and the discarded/kept tasks are compared with the reference after every action; non-trivial = >= 1 drop and a join or select in the program; distinct = distinct universe",
-            nontrivial: |u, i| {
-                let s = uses(u);
-                i.drops >= 1 && (s.contains("join") || s.contains("select") || s.contains("join_handle"))
-            },
-            quick: 12_000,
-            thorough: 40_000,
-        },
-        "C09" => Spec {
-            prop: "C09",
-            hosts: &[BridgeBincode, BridgeJson],
-            gen: GenCfg { garbage_weight: 1, ..GenCfg::standard() },
-            rule: "histories with many requests outstanding and out-of-order responses through the bincode and JSON bridges; decoded requests, ids and view compared with the reference; non-trivial = >= 3 requests outstanding at once, responses out of issue order; distinct = distinct (host, universe)",
-            nontrivial: |_, i| i.max_outstanding >= 3 && i.out_of_order,
-            quick: 3_000,
-            thorough: 30_000,
-        },
-        _ => return None,
-    })
-}
-
-/// Which clause of the oracle a failure message belongs to. Every campaign evaluates the whole
-/// oracle (the reference has to stay in step), but a property's check reports only failures of the
-/// clauses its statement covers; any other failure ends the case unjudged and is counted as
-/// `foreign:<clause>` - the check of the property that owns the clause reports it.
-fn clause_of(msg: &str) -> &'static str {
-    const TABLE: &[(&str, &str)] = &[
-        ("cancelled work was polled", "cancelled-polled"),
-        ("an aborted command was cleared but kept", "cancelled-polled"),
-        ("a task something can still wake was discarded", "discarded-alive"),
-        ("a legacy task", "discarded-alive"),
-        ("a task nothing can wake any more was kept", "dead-kept"),
-        ("is_done()", "done-flag"),
-        ("runnable work left behind", "runnable-left"),
-        ("which is not pending", "event-once"),
-        ("before an earlier event of the same emitter", "event-order"),
-        ("events were emitted but not applied", "events-unapplied"),
-        ("the view shows", "view"),
-        ("update was entered while", "reentrancy"),
-        ("a resolution was", "resolve-result"),
-        ("but the task received", "delivery"),
-        ("[bridge-panic]", "resolve-result"),
-        ("the call returned effects", "effects"),
-        ("was returned twice by one call", "effects"),
-        ("is not in the call's return value", "effects"),
-        ("the bridge handed out id", "bridge-ids"),
-        ("returned requests do not decode", "bridge-bytes"),
-        ("view does not decode", "bridge-bytes"),
-        ("[finished-task-retained]", "release"),
-        ("[executor-occupancy]", "release"),
-        ("[registry-", "release"),
-        ("[retained-after-drop]", "release"),
-        ("driver error", "driver"),
-        ("a request the reference never issued", "driver"),
-        // what a task did, poll by poll, differs from the reference semantics of the program
-        ("the real runtime polled task", "conformance"),
-        ("the real runtime dropped task", "conformance"),
-        ("after this poll, the real task", "conformance"),
-        ("finished without a poll", "conformance"),
-    ];
-    TABLE.iter().find(|(k, _)| msg.contains(k)).map(|(_, c)| *c).unwrap_or("unclassified")
-}
-
-fn owns(prop: &str, clause: &str, cancel_context: bool) -> bool {
-    // C06 is about what a cancellation does and does not do: whatever goes wrong in the call that
-    // cancels (drop, abort, a task aborting other work), or in a call that resolves a request of
-    // cancelled work, is a consequence of the cancellation
-    if prop == "C06" && cancel_context && ["runnable-left", "dead-kept", "done-flag", "events-unapplied", "view", "delivery", "resolve-result"].contains(&clause) {
-        return true;
-    }
-    let list: &[&str] = match prop {
-        "C01" => &["effects", "runnable-left", "events-unapplied", "discarded-alive"],
-        "C02" => &["resolve-result", "delivery"],
-        "C03" => &["event-once", "event-order", "events-unapplied", "view", "reentrancy"],
-        "C04" => &["conformance", "effects", "view", "done-flag", "runnable-left", "events-unapplied", "discarded-alive", "dead-kept"],
-        "C05" => &["conformance", "effects", "runnable-left", "events-unapplied", "view", "discarded-alive"],
-        "C06" => &["cancelled-polled", "discarded-alive", "effects", "conformance"],
-        "C07" => &["done-flag", "dead-kept", "discarded-alive"],
-        "C09" => &["bridge-ids", "bridge-bytes", "effects", "view", "resolve-result", "delivery"],
-        "C13" => &["release", "dead-kept"],
-        _ => &[],
-    };
-    // a failure nobody has classified is reported rather than hidden; a driver error is the harness's own
-    list.contains(&clause) || clause == "unclassified"
-}
-
-/// minimal inputs for the signatures that can be listed as known findings: (host, case, text the strict run must report)
-fn reproducer(sig: &str) -> Option<(HostKind, Universe, &'static str)> {
-    let uni = |programs: &str, acts: &str| -> Universe { serde_json::from_str(&format!("{{\"programs\":{programs},\"follow\":null,\"acts\":{acts}}}")).expect("reproducer is valid") };
-    Some(match sig {
-        // a task joining 31 requests, all of which the shell drops: nothing can wake it, yet it is kept
-        "evict-retained-waker" => (HostKind::Direct, uni(r#"[{"Async":[0,[{"JoinBig":31}]]}]"#, &format!("[{}]", vec![r#"{"Drop":0}"#; 31].join(","))), "inside a waker-retaining construct"),
-        "registry-keeps-notifications" => (HostKind::BridgeBincode, uni(r#"[{"Notify":0}]"#, "[]"), "[registry-keeps-notifications]"),
-        // a task that takes one item of a stream and ends
-        "registry-keeps-ended-streams" => (HostKind::BridgeBincode, uni(r#"[{"Async":[0,[{"StreamLoop":[1,[{"Emit":1}]]}]]}]"#, r#"[{"Resolve":0},{"Resolve":0}]"#), "[registry-keeps-ended-streams]"),
-        // a legacy-API task awaiting one request, which the shell drops
-        "legacy-task-kept-after-request-dropped" => (HostKind::Legacy, uni(r#"[{"Async":[0,["Await"]]}]"#, r#"[{"Drop":0}]"#), "legacy capability API"),
-        _ => return None,
-    })
-}
-
-fn labels(u: &Universe, info: &CaseInfo, host: HostKind) -> Vec<String> {
-    let mut l: Vec<String> = uses(u).into_iter().map(|s| format!("uses:{s}")).collect();
-    l.push(format!("host:{host:?}"));
-    if u.legacy_mask != 0 && matches!(host, HostKind::Core | HostKind::BridgeBincode | HostKind::BridgeJson) {
-        let (mut legacy, mut command) = (false, false);
-        for (p, c) in u.programs.iter().enumerate() {
-            if sim::app::through_legacy_api(u.legacy_mask, p as u16, c) {
-                legacy = true;
-            } else {
-                command = true;
-            }
-        }
-        if legacy {
-            l.push(if command { "mixed:legacy-api-and-command-api-programs-in-one-core".into() } else { "mixed:legacy-api-programs-on-a-command-host".into() });
-        }
-    }
-    if info.drops > 0 {
-        l.push("sched:drop".into());
-    }
-    if info.aborts > 0 {
-        l.push("sched:abort".into());
-    }
-    if info.late_resolves > 0 {
-        l.push("sched:late-resolve".into());
-    }
-    if info.id_reused {
-        l.push("bridge:id-reused".into());
-    }
-    if info.spurious_polls > 0 {
-        l.push("obs:spurious-poll".into());
-    }
-    if info.drains > 0 {
-        l.push("sched:drain".into());
-    }
-    if info.late_spawns > 0 {
-        l.push("sched:task-spawned-on-an-existing-command".into());
-    }
-    if matches!(host, HostKind::Direct) {
-        l.push(format!("direct:inspection-style-{}", u.inspect % 5));
-    }
-    if info.garbage > 0 {
-        l.push("sched:garbage-to-live-stream".into());
-    }
-    if info.in_task_aborts > 0 {
-        l.push("obs:abort-from-inside-a-task".into());
-    }
-    if info.max_outstanding > 1024 {
-        l.push("scale:outstanding>1024".into());
-    }
-    if info.max_events_in_call > 1024 {
-        l.push("scale:events-in-one-call>1024".into());
-    }
-    l
-}
+//! Runtime properties decided by Engine A (see /verif/DESIGN.md §4 and §7). The campaigns' specification,
+//! clause ownership and judgement live in the library (lib.rs) so that the coverage-guided driver shares them.
+use chk_sim::{c08, c12, c13_timers, reproducer, Case, Judge};
+use sim::shell::{run_case, CaseCfg};
+use vkit::{Mode, Outcome, Report, Tier};
 
 /// counts the bytes each thread allocates (C12: a malformed input must not cause unbounded allocation)
 struct Counting;
@@ -315,81 +55,12 @@ fn main() {
         c12::main(mode);
         return;
     }
-    let Some(sp) = spec(&prop) else {
+    let Some(judge) = Judge::new(&prop) else {
         eprintln!("chk-sim does not implement {prop}");
         std::process::exit(2)
     };
-    let known = vkit::known_findings(sp.prop);
-    let tolerate_retaining = vkit::is_known(&known, "evict-retained-waker") || vkit::is_known(&vkit::known_findings("C07"), "evict-retained-waker");
-    let tolerate_legacy_kept = vkit::is_known(&vkit::known_findings("C13"), "legacy-task-kept-after-request-dropped");
-    let stats = Stats::new();
-    let tolerate: Vec<String> = known.iter().map(|k| k.sig.clone()).collect();
-    let driver_errors = std::sync::atomic::AtomicU64::new(0);
-    let check = |c: &Case| -> Result<(), String> {
-        if c.cross && sp.prop == "C05" {
-            if !cross_comparable(&c.universe) {
-                stats.label("cross:not-in-the-comparable-fragment");
-                return Ok(());
-            }
-            // command-API hosts with the full schedule (drops included)
-            let a = run_cross(&c.universe, &[HostKind::Direct, HostKind::Stream, HostKind::Core], true).map_err(|e| format!("[cross-host] {e}"))?;
-            // the serialized hosts against the typed core (a shell cannot drop a serialized request)
-            let b = run_cross(&c.universe, &[HostKind::Core, HostKind::BridgeBincode, HostKind::BridgeJson], false).map_err(|e| format!("[cross-host] {e}"))?;
-            // the legacy capability API against the command API when the program can be written in it (tasks
-            // only; no select: its executor orders polls differently; no drops: in that API a dropped request
-            // wakes nobody, the waiting task simply stays - see DESIGN 4.4)
-            let s = uses(&c.universe);
-            let with_legacy = c.universe.programs.iter().all(sim::legacy::expressible) && !s.contains("select");
-            if with_legacy {
-                run_cross(&c.universe, &[HostKind::Core, HostKind::Legacy], false).map_err(|e| format!("[cross-host] {e}"))?;
-            }
-            let nt = c.universe.programs.iter().any(|p| p.depth() >= 4) && a.max_outstanding >= 2;
-            stats.case(&(c.host, &c.universe, true), nt, &["cross:compared", if with_legacy { "cross:with-legacy-api" } else { "cross:command-api-hosts" }]);
-            let _ = b;
-            return Ok(());
-        }
-        let info = match run_case(&c.universe, &CaseCfg { host: c.host, tolerate_retaining, byte_late_resolves: sp.prop == "C02", release_checks: sp.prop == "C13", tolerate: tolerate.clone(), tolerate_legacy_kept }) {
-            Ok(info) => info,
-            Err(fail) => {
-                // every clause that failed in the first failing call; report the first one this property owns
-                if let Some(why) = fail.msgs.iter().find(|w| owns(sp.prop, clause_of(w), fail.cancel_context)) {
-                    return Err(format!("[{}] after {}: {why}", clause_of(why), fail.act));
-                }
-                // none of them is this property's clause: the case ends unjudged
-                let clause = clause_of(&fail.msgs[0]);
-                if clause == "driver" {
-                    driver_errors.fetch_add(1, std::sync::atomic::Ordering::Relaxed);
-                    eprintln!("harness error: {}", fail.msgs[0]);
-                }
-                stats.label(&format!("foreign:{clause}"));
-                if let Some(dir) = std::env::var_os("VERIF_DUMP_FOREIGN") {
-                    // (debugging aid: what did another property's clause object to?)
-                    let _ = std::fs::create_dir_all(&dir);
-                    let body = serde_json::json!({ "property": sp.prop, "why": format!("[{clause}] after {}: {}", fail.act, fail.msgs[0]), "case": c });
-                    let text = serde_json::to_string(&body).unwrap_or_default();
-                    let _ = std::fs::write(std::path::Path::new(&dir).join(format!("{}-{clause}-{:016x}.json", sp.prop, vkit::fnv(text.as_bytes()))), text);
-                }
-                return Ok(());
-            }
-        };
-        let nt = (sp.nontrivial)(&c.universe, &info);
-        let ls = labels(&c.universe, &info, c.host);
-        let refs: Vec<&str> = ls.iter().map(|s| s.as_str()).collect();
-        stats.case(&(c.host, &c.universe, false), nt, &refs);
-        if info.used_retaining_exemption > 0 {
-            stats.excluded_known("evict-retained-waker");
-        }
-        if info.used_legacy_exemption > 0 {
-            stats.excluded_known("legacy-task-kept-after-request-dropped");
-        }
-        for t in &info.tolerated {
-            stats.excluded_known(t);
-        }
-        if nt && stats.wants_sample() {
-            stats.sample(|| serde_json::to_value(c).unwrap());
-        }
-        Ok(())
-    };
+    let (sp, known, stats, driver_errors) = (&judge.sp, &judge.known, &judge.stats, &judge.driver_errors);
+    let check = |c: &Case| judge.check(c);
     match mode {
         Mode::Replay(path) => {
             let v = vkit::read_replay(&path);
@@ -403,7 +74,7 @@ fn main() {
         Mode::Run(tier) => {
             let started = std::time::Instant::now();
             // known findings of this property: print the line iff the reproducer still shows it
-            for k in &known {
+            for k in known {
                 if let Some((host, universe, needle)) = reproducer(&k.sig) {
                     let strict = CaseCfg { host, tolerate_retaining: false, byte_late_resolves: false, release_checks: sp.prop == "C13", tolerate: vec![], tolerate_legacy_kept: false };
                     if matches!(run_case(&universe, &strict), Err(e) if e.msgs.iter().any(|w| w.contains(needle))) {
@@ -427,7 +98,7 @@ fn main() {
             if sp.prop == "C13" {
                 // timer clause (one thread: it watches a process-wide set), see c13_timers.rs
                 use proptest::prelude::*;
-                let late_clear_known = vkit::is_known(&known, "legacy-late-clear-leaks-timer-id");
+                let late_clear_known = vkit::is_known(known, "legacy-late-clear-leaks-timer-id");
                 if let Some(k) = known.iter().find(|k| k.sig == "legacy-late-clear-leaks-timer-id") {
                     if matches!(c13_timers::run(&[c13_timers::Cycle::LegacyFireThenClear]), Err((s, _)) if s == k.sig) {
                         vkit::print_known_finding(k);
@@ -443,6 +114,8 @@ fn main() {
                     c13_timers::Cycle::CmdFireThenClear,
                     c13_timers::Cycle::CmdDropHandleThenFire,
                     c13_timers::Cycle::CmdClearBeforeFirstPoll,
+                    c13_timers::Cycle::LegacyClearThenDropCore,
+                    c13_timers::Cycle::LegacyAsyncClearedUnawaited,
                 ];
                 let timer_stats = &stats;
                 let tcheck = |cycles: &Vec<c13_timers::Cycle>| -> Result<(), String> {
@@ -471,35 +144,10 @@ fn main() {
                     std::process::exit(1);
                 }
             }
-            let hosts = sp.hosts;
-            // thorough tier: every other worker explores long histories (things that need > 30 shell actions)
+            // thorough tier: half of the cases use long schedules (some behaviour needs more than 30 shell actions)
             let long = std::env::var("VERIF_LONG").map_or(false, |v| v == "1");
-            let gen = if long { GenCfg { max_acts: 260, ..sp.gen } } else { sp.gen };
-            // thorough: half of the cases use long schedules (some behaviour needs more than 30 shell actions)
             let mix_long = matches!(tier, Tier::Thorough) && sp.prop != "C13";
-            let strategy = move || {
-                use proptest::prelude::*;
-                let cross_share = if sp.prop == "C05" { 0.25 } else { 0.0 };
-                (proptest::sample::select(hosts.to_vec()), any::<bool>(), proptest::bool::weighted(cross_share))
-                    .prop_flat_map(move |(h, l, cross)| {
-                        let mut g = if h == HostKind::Legacy { GenCfg::legacy() } else { gen };
-                        if mix_long && l {
-                            g.max_acts = 260;
-                        }
-                        if cross {
-                            // the comparable fragment: no cancellation from inside, no follow-up programs
-                            g.task_aborts = false;
-                            g.abortable = false;
-                        }
-                        universe(g).prop_map(move |mut u| {
-                            if cross {
-                                u.follow = None;
-                            }
-                            Case { host: h, universe: u, cross }
-                        })
-                    })
-                    .boxed()
-            };
+            let strategy = || judge.strategy(mix_long, long, false);
             let outcome = vkit::run_prop(sp.prop, vkit::workers_for(tier), tier.pick(sp.quick, sp.thorough), strategy, check);
             let outcome = match outcome {
                 Outcome::Held if driver_errors.load(std::sync::atomic::Ordering::Relaxed) > 0 => Outcome::Inconclusive("the shell driver lost track of a request (harness error, see stderr)".into()),
